@@ -542,6 +542,8 @@ pub fn c04(rec: &mut Rec, rng: &mut Rng, thorough: bool) {
                 ns.push(v as u64);
             }
         }
+        // declared lengths that do not fit 32 bits: never accepted, and never reported as another number
+        ns.extend_from_slice(&[4294967296, 4294967297, 99999999999]);
         ns.sort();
         ns.dedup();
         for &n in &ns {
@@ -567,13 +569,29 @@ pub fn c04(rec: &mut Rec, rng: &mut Rng, thorough: bool) {
                 // the head only: no body byte is offered
                 let cuts = gen::cuts(rng, &head, 4 + variant);
                 let mut last = String::new();
+                let mut errs: Vec<String> = vec![];
                 for ch in gen::split_at_cuts(&head, &cuts) {
                     for r in d.recv(rec, &ch, 0) {
+                        if r.starts_with("parse(") {
+                            errs.push(r.clone());
+                        }
                         last = r;
                     }
                 }
                 let want_err = n > l as u64 && n > 0;
                 let expect = format!("parse(SizeLimitExceeded({},{}))", l, n);
+                if n > 4294967295 {
+                    // n > L for every configurable L: the request must be rejected by this very read; the header rules
+                    // reject the value itself (not a 32-bit decimal), and a size-limit error, if that is what is
+                    // reported, must carry the declared number
+                    // (the header rule rejects at the Content-Length line itself, which may be an earlier read)
+                    if errs.is_empty() || errs.iter().any(|e| e.starts_with("parse(SizeLimitExceeded(") && *e != expect) {
+                        rec.oracle_fail("C04", &format!("L={} n={}: the reads up to the end of the header block returned {:?}, last {}", l, n, errs, last), &d.log);
+                    }
+                    rec.count("payload:beyond-u32");
+                    d.popall(rec);
+                    continue;
+                }
                 if want_err != (last == expect) || (!want_err && last != "ok") {
                     rec.oracle_fail("C04", &format!("L={} n={}: the read completing the header block returned {}", l, n, last), &d.log);
                 }
